@@ -9,7 +9,7 @@ import ast
 import itertools
 
 from .core import Unrecognised, norm
-from .absint import Interp, Sym, ADict, AList, RaiseSig, ReturnSig, reify
+from .absint import Interp, Sym, ADict, AList, RaiseSig, ReturnSig, reify, AIter
 
 
 class HostOrdering(Exception):
@@ -506,7 +506,8 @@ def data_tables():
     T1 = [{'c': 'x', 'v': 1}, {'c': 'y', 'v': 2.5}, {'c': 'x', 'v': None}, {'c': 'x', 'v': 0}, {'c': 'y', 'v': -1}, {'c': 'x', 'v': 4}]
     T2 = [{'c': True, 'd': 'p', 'v': 3}, {'c': 1, 'd': 'p', 'v': 5}, {'c': 1.0, 'd': 'q', 'v': 7}, {'c': None, 'd': 'p'}, {'c': False, 'd': 'p', 'v': 0}, {'c': 0, 'd': 'p', 'v': 2}]
     T3 = [{'c': '1', 'v': 2}, {'c': 1, 'v': 3}, {'c': [1], 'v': 5}, {'c': '[1]', 'v': 7}, {'v': 11}]
-    return {'plain': T1, 'mixed key types (true / 1 / 1.0 / null / false / 0)': T2, 'keys that look alike ("1" / 1 / [1] / "[1]" / missing)': T3, 'empty': [], 'one row': [{'c': 'x', 'v': 2}]}
+    T4 = [{'c': 'x', 'v': 0.1}, {'c': 'x', 'v': 0.1}, {'c': 'x', 'v': 0.1}, {'c': 'y', 'v': 1e9 + 0.25}, {'c': 'y', 'v': 1e9 + 0.5}, {'c': 'y', 'v': 1e9 + 0.75}]
+    return {'plain': T1, 'float measures: equal non-dyadic values, large mean with small spread': T4, 'mixed key types (true / 1 / 1.0 / null / false / 0)': T2, 'keys that look alike ("1" / 1 / [1] / "[1]" / missing)': T3, 'empty': [], 'one row': [{'c': 'x', 'v': 2}]}
 
 
 def _abs(v):
@@ -942,3 +943,72 @@ def _fmt_dt(t):
     if t[0] == 'date':
         return f'{t[1]:04d}-{t[2]:02d}-{t[3]:02d}'
     return f'{t[1]:04d}-{t[2]:02d}-{t[3]:02d}T{t[4]:02d}:{t[5]:02d}:{t[6]:02d}.{t[7] // 1000:03d}' + (f'(+{t[7] % 1000}us)' if t[7] % 1000 else '')
+
+
+# ------------------------------------------------------------------------------------------------ dataParseCSV
+class CsvInterp(LibInterp):
+    """csv.reader / csv.DictReader are exact host models on concrete lines; validate_data (typing of the cells) is an oracle that leaves the rows as they are"""
+
+    def __init__(self, repo, mod, rule='E6l'):
+        super().__init__(repo, mod, rule)
+        self.oracles['validate_data'] = lambda args, node: args[0]
+
+    def host_function(self, name, args, e):
+        import csv as _csv
+        kwargs = dict(getattr(self, '_kwargs', None) or {})
+        if name in ('csv.reader', 'csv.DictReader') and args:
+            lines = self.iterate(args[0], e)
+            if not all(isinstance(x, str) for x in lines):
+                raise Unrecognised(self.rule, f'{name} applied to non-text lines', self.mod.rel)
+            kw = {k: v for k, v in (kwargs or {}).items() if isinstance(v, (str, bool, int)) or v is None}
+            extra = []
+            if name == 'csv.DictReader' and len(args) > 1:
+                extra = [self.iterate(args[1], e) if args[1] is not None else None]
+            try:
+                rows = list(getattr(_csv, name.split('.')[1])(lines, *extra, **kw))
+            except Exception as exc:
+                raise RaiseSig(type(exc).__name__, (str(exc),), e)
+            return AIter([ADict({k: (AList(v) if isinstance(v, list) else v) for k, v in r.items()}) if isinstance(r, dict) else AList(r) for r in rows])
+        return super().host_function(name, args, e)
+
+
+def run_parse_csv(repo, libfuncs, rule='E6l'):
+    """dataParseCSV on concrete texts with ragged rows -> (n, problems)"""
+    lf = libfuncs.get('dataParseCSV')
+    if lf is None:
+        raise Unrecognised(rule, 'dataParseCSV is not registered', None)
+    it = CsvInterp(repo, lf.mod, rule)
+    cases = [
+        (['a,b\n1,2\n3,4'], ['a', 'b'], [['1', '2'], ['3', '4']]),
+        (['a,b\n1,2\n3,4,5'], ['a', 'b'], [['1', '2'], ['3', '4']]),
+        (['a,b', '3,4,5,6\n7'], ['a', 'b'], [['3', '4'], ['7', None]]),
+        (['a,b\r\n1\r\n'], ['a', 'b'], [['1', None]]),
+        (['a, b', None, '"x,y", 2'], ['a', 'b'], [['x,y', '2']]),
+        (['a\n'], ['a'], []),
+    ]
+    problems, n = [], 0
+    for parts, header, rows in cases:
+        n += 1
+        desc = f'dataParseCSV({", ".join(repr(p) for p in parts)})'
+        got = it.run(lf.func, [AList(list(parts)), ADict({})])
+        if got[0] == 'raise':
+            problems.append(('raise', f'{desc} raises {got[1]}{tuple(got[2])!r}'))
+            continue
+        res = got[1]
+        if not isinstance(res, AList) or not all(isinstance(r, ADict) for r in res.l):
+            raise Unrecognised(rule, f'{desc} evaluates to {res!r}', lf.mod.rel)
+        for ix, r in enumerate(res.l):
+            nonstr = [k for k in r.d if not isinstance(k, str)]
+            if nonstr:
+                problems.append(('key', f'{desc}: row {ix + 1} is an object with the non-string key {nonstr[0]!r} (the cells beyond the header): serialising or comparing it raises a host TypeError'))
+        if any(p[1].startswith(desc) for p in problems):
+            continue
+        if len(res.l) != len(rows):
+            problems.append(('rows', f'{desc} gives {len(res.l)} rows; the text has {len(rows)} data rows'))
+            continue
+        for ix, (r, want) in enumerate(zip(res.l, rows)):
+            cells = [r.d.get(h) for h in header]
+            if cells != want or set(r.d) - set(header):
+                problems.append(('cells', f'{desc}: row {ix + 1} is {dict(r.d)!r}; the header {header} and the cells give {dict(zip(header, want))!r}'))
+                break
+    return n, problems
